@@ -299,6 +299,44 @@ def strip_generics(path):
 
 
 class Facts:
+    def resolve_flags(self):
+        """For every bool field of the reference tree that is a two-variant enum now (names.detect): which variant stands for `true`
+        is read off the functions that gave the field a constant on the reference tree (baseline `boolinit`): each of them, analysed with
+        its new helpers opened, must store one variant, and the variants stored where the reference stored `true` and `false` must be
+        two different ones. Only then are values of the enum carried as that bool (symex); otherwise nothing is assumed."""
+        self.flagenums = {}
+        flags = getattr(self.renames, 'flags', None) or []
+        if not flags:
+            return
+        import symex
+        binit = _baseline().get(self.crate, {}).get('boolinit', {})
+        for adt, field, enum in flags:
+            ref = (binit.get(adt) or {}).get(field) or {}
+            e = self.adts.get(enum)
+            if not ref or not e or enum in self.flagenums:
+                continue
+            votes = {}
+            for fdef, val in ref.items():
+                fn = self.fns.get(fdef)
+                if fn is None:
+                    continue
+                for p in symex.Interp(self, mode={'inline_private': True, 'combinators': False}).run(fn):
+                    if p.outcome[0] != 'return':
+                        continue
+                    for x in symex.subvalues(p.outcome[1]):
+                        if x[0] == 'agg' and x[1] == 'adt' and x[2] == adt:
+                            fv = symex.strip(dict(x[4]).get(field, ('unk', '')))
+                            if fv[0] == 'agg' and fv[2] == enum:
+                                votes.setdefault(fv[3], set()).add(bool(val))
+                            else:
+                                votes.setdefault('?', set()).add(bool(val))
+            tv = [v for v, s in votes.items() if s == {True}]
+            fv = [v for v, s in votes.items() if s == {False}]
+            if len(tv) == 1 and len(fv) == 1 and len(votes) == 2 and '?' not in votes:
+                d = {x['name']: x['discr'] for x in e['variants']}
+                self.flagenums[enum] = {'true_variant': tv[0], 'false_variant': fv[0], 'true_discr': d[tv[0]], 'false_discr': d[fv[0]]}
+                self.rename_log = list(getattr(self, 'rename_log', [])) + ['%s::%s stands for `true` of %s.%s, %s for `false` (what %s store)' % (enum, tv[0], adt, field, fv[0], sorted(ref))]
+
     def _map_config_fields(self):
         """Fields that only exist in some feature configurations cannot be reconciled through the reference inventory (taken from the
         std build). The one such field the rules name - the per-instance flag of no_std builds, `Unimock.panicked: MutexIsh<bool>` - is
@@ -392,11 +430,16 @@ class Facts:
             import names
             if os.path.exists(names.BASELINE):
                 base = _baseline()
-                known = set(base.get(self.crate, {}).get('adts', {}))
+                badts = base.get(self.crate, {}).get('adts', {})
+                known = set(badts)
                 if known:
                     for path_, a in self.adts.items():
-                        if a.get('local') and a.get('crate') == self.crate and a['kind'] == 'struct' and path_ not in known and len(a['variants']) == 1 and len(a['variants'][0]['fields']) == 1:
-                            self.transparent.add(path_)
+                        if a.get('local') and a.get('crate') == self.crate and a['kind'] == 'struct' and len(a['variants']) == 1 and len(a['variants'][0]['fields']) == 1:
+                            b_ = badts.get(path_)
+                            # new, or an enum of the reference tree that became a newtype around another type (e.g. a hand-written mirror of
+                            # Option / Result / Poll replaced by a wrapper of the std type itself)
+                            if b_ is None or b_['kind'] != 'struct':
+                                self.transparent.add(path_)
         except Exception:
             self.transparent = set()
         self.impls = self.j['impls']
